@@ -35,7 +35,7 @@ Proof. exact mgm_rounds_monotone_lemma. Qed.
 
 (* MGM2: the statement is FALSE of the code as it is (known finding C03-mgm2-coordinated-gain:
    _find_best_offer counts the current cost of the constraints shared with the offerer as gain; the
-   formula is pinned by the baseline tests test_find_best_offer_*).  Witness: an execution of the
+   formula is pinned by the baseline tests test_find_best_offer_min_mode_one_offerer etc.).  Witness: an execution of the
    asynchronous MGM2 model (two variables, min mode, no variable cost) in which both partners move
    together and the global cost goes from 5 to 6.  No monotonicity theorem is claimed for MGM2. *)
 Theorem mgm2_monotone_refuted :
